@@ -280,6 +280,9 @@ class Check:
         return True
 
     def finish(self, coverage, assumptions=None, require_conclusive=True):
+        for msg in OBS_ERRORS[:20]:
+            self.report("output-unreadable:" + msg.split(":")[0], "a file written by the tools for an accepted input does not "
+                        "have the documented form: " + msg[:300], {"error": msg[:1000]})
         nviol = sum(self.viol_keys.values())
         cov = dict(coverage)
         cov.setdefault("inconclusive", self.inconclusive)
@@ -347,12 +350,24 @@ def validate_evidence(ev):
 _POOL_FN = None
 
 
+OBS_ERRORS = []     # files written by the tools under test that a monitor could not read back
+
+
+def _is_observation_error(ex):
+    # lib/pv.py PrvError and lib/obs.py DecodeError: what a tool wrote does not
+    # have the documented form.  That is an observation about the tool, not a bug
+    # of the monitor.
+    return type(ex).__name__ in ("PrvError", "DecodeError")
+
+
 def _pool_call(arg):
     try:
         return ("ok", _POOL_FN(arg))
     except HarnessError as ex:
         return ("harness", str(ex))
     except Exception as ex:  # a bug in the monitor is a harness failure, never a verdict
+        if _is_observation_error(ex):
+            return ("obs", "%s: %s" % (type(ex).__name__, ex))
         import traceback
         return ("harness", "%s\n%s" % (ex, traceback.format_exc()))
 
@@ -405,6 +420,9 @@ def pmap(fn, args, jobs=None, chunksize=1):
                 raise HarnessError("a worker process died (killed or out of memory)")
             except cf.TimeoutError:
                 raise HarnessError("a case did not finish within an hour")
+            if st == "obs":
+                OBS_ERRORS.append(val)
+                continue
             if st != "ok":
                 raise HarnessError(val)
             yield val
